@@ -9,9 +9,12 @@ geometric operands stored in the all-Cartesian signature* (differential oracle).
 
 from __future__ import annotations
 
+import math
+
 import mpmath
 from mpmath import mpf
 
+from .. import alphabet as A
 from .. import lattice as L
 from .. import model as G
 from .. import sweep as S
@@ -256,9 +259,35 @@ def run_shard(shard, tier):
         # non-default tolerances between tau and tau^2 of the alphabet's slow (|tau| ~ 0.1-0.3) and ordinary (|tau| ~ 1.3-4) vectors
         scal = scal + [t for t in ({"tolerance": 0.0625}, {"tolerance": 3.0}, {"tolerance": -3.0}) if t not in scal]
     nsamp = 0
+    combos = [(a, b, s) for a, b in cases for s in scal]
+    if op.name == "isclose" and dimA == 4:
+        # pairs that differ in the time component only (t2 = 1.125 t1), with tolerance pairs for which the verdict is clear of its
+        # boundary by > 10 % and depends on which of the two tolerances is the relative one: the spatial parts are the same
+        # geometric vector in every storage, so the verdict must not depend on the storage pairing either
+        for a, _ in cases:
+            if _ is None or _.name != "same" or not a.has("timelike") and not a.has("forward_timelike"):
+                continue
+            t1 = a.comps[3]
+            if t1 <= 0 or any(c == 0 for c in a.comps) or a.has("near_axis") or a.has("wildphi"):
+                continue  # a zero component turns into a rounding residue under conversion: never close with atol = 0
+            near = A.Vec("t*1.125", a.comps[:3] + (t1 * 1.125,), {"near_t"})
+            for s_ in ({"rtol": 0.25, "atol": 0.0}, {"rtol": 0.0, "atol": 0.25}, {"rtol": 0.0625, "atol": 0.0}, {"rtol": 0.0, "atol": 0.0625}):
+                # the library compares same-temporal pairs in their stored temporal coordinate and mixed pairs after a conversion:
+                # keep the pair only if the verdict is the same, clear of its boundary, whether time is compared as t or as tau
+                p2 = sum(c * c for c in a.comps[:3])
+                t2 = t1 * 1.125
+                if t1 * t1 <= p2:
+                    continue
+                tau1, tau2 = math.sqrt(t1 * t1 - p2), math.sqrt(t2 * t2 - p2)
+                verdicts = []
+                for d_, other in ((t2 - t1, t2), (tau2 - tau1, tau2)):
+                    budget = s_["atol"] + s_["rtol"] * abs(other)
+                    verdicts.append(None if abs(d_ - budget) <= 0.1 * max(budget, d_) else d_ <= budget)
+                if verdicts[0] is not None and verdicts[0] == verdicts[1]:
+                    combos.append((a, near, s_))
     for flavor in flavors:
-        for a, b in cases:
-            for s in scal:
+        for a, b, s in combos:
+            if True:
                 ms = S.mp_scalars(s)
                 ref = call(op, a, cart_sig[0], b, cart_sig[1], flavor, ms)
                 res.transitions += 1
